@@ -4,9 +4,11 @@ import (
 	"encoding/base64"
 	"encoding/binary"
 	"encoding/hex"
+	"fmt"
 	"go/constant"
 	"go/token"
 	"go/types"
+	"os"
 
 	"golang.org/x/tools/go/ssa"
 )
@@ -367,6 +369,10 @@ func (e *Evaluator) callBytes(vals map[ssa.Value]Val, c *ssa.Call) (Val, bool) {
 		return Val{}, false
 	}
 	name := callee.String()
+	if o := callee.Origin(); o != nil {
+		// an instantiation of a generic function (slices.Concat[[]byte byte])
+		name = o.String()
+	}
 	arg := func(i int) Val { return e.get(vals, cc.Args[i]) }
 	var order binary.ByteOrder
 	var aorder binary.AppendByteOrder
@@ -434,6 +440,9 @@ func (e *Evaluator) callBytes(vals map[ssa.Value]Val, c *ssa.Call) (Val, bool) {
 			for _, el := range parts.B.Elems[parts.Off : parts.Off+parts.Len] {
 				b, ok := bytesOrString(el)
 				if !ok {
+					if os.Getenv("TV_DBG_FORK") != "" {
+						fmt.Fprintf(os.Stderr, "CONCAT element not constant: %s\n", el)
+					}
 					return Val{}, false
 				}
 				out = append(out, b...)
